@@ -13,10 +13,23 @@
  *  R1 events carry the values transmitted (CNIs, PIL/flags, time, aspect)
  *  R2 an identifier is announced only after it was received before, unchanged
  *     (CNI, XDS name: in one of the two preceding receptions on the carrier; VPS
- *     PID: in some earlier reception; WSS: three identical repeats + odd parity)
- *  R3 no second NETWORK_ID / ASPECT while the same values keep arriving
+ *     PID: in some earlier reception; WSS: three identical repeats + odd parity;
+ *     XDS call letters: twice in a row)
+ *  R3 the same NETWORK / NETWORK_ID announcement, or the same ASPECT, is not made
+ *     again while the same values keep arriving (no reception in between was the
+ *     first or the second of a run on its carrier)
  *  R4 single deviating receptions: no NETWORK event, probe page stays cached
  *  R5 change to a different known station: exactly one NETWORK event, probe dropped
+ * R4 and R5 need to know which station is "the identified" one.  Carrier domains:
+ * all carriers name the station (judged), none is in the table (judged: never a
+ * NETWORK event), some carriers send a CNI of zero = none (judged, zero is no
+ * identifier), the carriers disagree - one CNI is in the table, another is not -
+ * (not decided by the statement: only R1-R3 and, against the twin history that
+ * differs in nothing but the single deviations, R4).
+ *
+ * Violations which are one of the three recorded deviations of the library and
+ * nothing else are reported under the deviation's key (quirk-parameterised
+ * reference model, see "reference model" below); everything else is plain.
  *
  * Modes: "hist" random phase-structured 625-line histories, "xds" the same for
  * XDS, "exh" all histories of length <= p0 over a 4 value alphabet per carrier.
@@ -961,6 +974,7 @@ static void attribute(const struct twin *tw_lib)
 	static struct vrec lib_v[MAXVIOL], all_v[MAXVIOL], var_v[7][MAXVIOL];
 	struct phase_rec ph_lib[8];
 	int n_lib = n_vlist, n_all = 0, n_var[7], n_ev_lib = n_ev, explained, q, i, k, nq = 3, pending;
+	int filed[3] = { 0, 0, 0 }, pass;
 
 	memcpy(lib_v, vlist, sizeof lib_v);
 	memcpy(ph_lib, ph, sizeof ph_lib);
@@ -997,15 +1011,22 @@ static void attribute(const struct twin *tw_lib)
 	memcpy(ph, ph_lib, sizeof ph_lib);
 	vf_count(explained ? "violating_histories_matching_the_model_of_recorded_deviations" : "violating_histories_not_matching_the_model", 1);
 
-	for (i = 0; i < n_lib; i++) {
-		const struct vrec *v = &lib_v[i];
-		int qs = -1;
-		if (explained && has_viol(all_v, n_all, v))
-			for (q = 0; q < nq && qs < 0; q++) if (!has_viol(var_v[q], n_var[q], v)) qs = q;
-		if (vf_verbose) vf_log("   attribution of %s (phase %d): library matches the model with all recorded deviations=%d, violation in that model=%d, gone without: %s\n", v->key, v->phase, explained,
-			explained && has_viol(all_v, n_all, v), qs >= 0 ? out_name[qs] : "-");
-		if (qs >= 0) vf_fail(quirk_key[out_key[qs]], "%s [gone from the reference model without: %s]: %s", v->key, out_name[qs], v->detail);
-		else vf_fail(v->key, "%s", v->detail);
+	/* first the violations explained by a recorded deviation: one short record per deviation and history (the
+	 * description of the history is attached to the others only, replaying shows everything) */
+	for (pass = 0; pass < 2; pass++) {
+		if (pass == 1) vf_sample("%s", desc);
+		for (i = 0; i < n_lib; i++) {
+			const struct vrec *v = &lib_v[i];
+			int qs = -1;
+			if (explained && has_viol(all_v, n_all, v))
+				for (q = 0; q < nq && qs < 0; q++) if (!has_viol(var_v[q], n_var[q], v)) qs = q;
+			if (pass == 0 && vf_verbose) vf_log("   attribution of %s (phase %d): library matches the model with all recorded deviations=%d, violation in that model=%d, gone without: %s\n", v->key, v->phase, explained,
+				explained && has_viol(all_v, n_all, v), qs >= 0 ? out_name[qs] : "-");
+			if (pass == 1) { if (qs < 0) vf_fail(v->key, "%s", v->detail); continue; }
+			if (qs < 0 || filed[out_key[qs]]) continue;
+			filed[out_key[qs]] = 1;
+			vf_fail(quirk_key[out_key[qs]], "%s [gone from the reference model without: %s; %d violation(s) found in this history]: %.420s", v->key, out_name[qs], n_lib, v->detail);
+		}
 	}
 }
 
@@ -1014,13 +1035,13 @@ static void attribute(const struct twin *tw_lib)
  * otherwise tw (if not NULL) is the record of the twin that was run before. */
 static int run_hist(struct vf_rng *r, int twin, struct twin *tw)
 {
-	int active[4] = { 0, 0, 0, 0 }, nact = 0, c, i, phase, ncar;
+	int active[4] = { 0, 0, 0, 0 }, nact = 0, c, i, phase;
 	const struct station *st = NULL;
 	unsigned val[3] = { 0, 0, 0 };
 	int known[3] = { 0, 0, 0 };
 	struct prog pg; struct tx_wss wss; struct clock_ ck;
 	int cooldown[4] = { 0, 0, 0, 0 };
-	int probe = 0, probe_phase = -1;
+	int probe = 0;
 	int o = 0;
 	const struct station *st_prev = NULL;
 
@@ -1074,7 +1095,6 @@ static int run_hist(struct vf_rng *r, int twin, struct twin *tw)
 			ph[phase].changed_station = phase > 0;
 		}
 		active[CR_WSS] = vf_chance(r, 1, 2);
-		ncar = nact + active[CR_WSS];
 		ph[phase].start = n_rx;
 		ph[phase].now_known = (domain == D_KNOWN || domain == D_PARTIAL);
 		ph[phase].nact = nact;
@@ -1102,7 +1122,7 @@ static int run_hist(struct vf_rng *r, int twin, struct twin *tw)
 		ph[phase].settled = n_rx;
 		if (probe && ph[phase].changed_station) ph[phase].old_probe_cached_after_settle = cached(probe);
 		/* new probe page for this station */
-		probe = tx_probe(); probe_phase = phase;
+		probe = tx_probe();
 		ph[phase].probe = probe;
 		if (!cached(probe)) { vf_fail("harness:C13:probe-not-cached", "probe page %x not cached right after transmission", probe); del_decoder(); return 0; }
 
@@ -1153,7 +1173,6 @@ static int run_hist(struct vf_rng *r, int twin, struct twin *tw)
 		ph[phase].end = n_rx;
 		ph[phase].probe_cached_at_end = cached(probe);
 	}
-	(void)probe_phase;
 	idle_frames(3);
 
 	if (twin) {
@@ -1163,7 +1182,6 @@ static int run_hist(struct vf_rng *r, int twin, struct twin *tw)
 		del_decoder();
 		return 0;
 	}
-	vf_sample("%s", desc);
 	/* judge; violations are collected first so that those which are the named, recorded deviations of the
 	 * library and nothing else can be reported under the deviation's own key */
 	collecting = 1; n_vlist = 0;
@@ -1171,6 +1189,7 @@ static int run_hist(struct vf_rng *r, int twin, struct twin *tw)
 	judge_phases(tw);
 	collecting = 0;
 	if (n_vlist) attribute(tw);
+	else vf_sample("%s", desc);
 	del_decoder();
 	return n_ev > 0;
 }
@@ -1443,6 +1462,60 @@ static void selftest(void)
 	}
 	build_stations();
 	if (n_multi < 20 || n_stations < 100) vf_fail("selftest:C13", "station catalogue too small: %d/%d", n_multi, n_stations);
+	/* the reference model used for attribution, on hand histories (expected logs worked out on paper from the
+	 * description of the strict model and of the three recorded deviations) */
+	{
+		const struct station *A = NULL, *B = NULL;
+		unsigned U = 0x0F11;
+		int i, n, k;
+		static const struct { int c, v; } h1[] = { {1,0},{1,0},{0,2},{0,2},{1,0},{1,0},{0,2},{0,2},{1,0},{1,0} };   /* 8/30-1 A A, VPS U U, ... */
+		static const struct { int c, v; } h2[] = { {0,0},{0,0},{1,1},{1,1},{0,0},{0,0} };                           /* VPS A A, 8/30-1 B B, VPS A A */
+		static const struct { int c, v; } h3[] = { {0,0},{0,0},{0,3},{0,0},{0,0} };                                 /* VPS A A D A A */
+		for (i = 0; i < n_multi; i++) if (stations[i].ok[0] && stations[i].ok[1] && stations[i].ok[2]) { if (!A) A = &stations[i]; else { B = &stations[i]; break; } }
+		while (in_col(CR_VPS, U)) U++;
+		if (!A || !B) { vf_fail("selftest:C13", "no two stations with all three CNIs"); return; }
+#define LOAD(h) do { n_rx = (int)(sizeof h / sizeof h[0]); memset(rxs, 0, sizeof rxs[0] * (size_t)n_rx); \
+		for (k = 0; k < n_rx; k++) { rxs[k].carrier = h[k].c; rxs[k].cni = rxs[k].clean_cni = h[k].v == 0 ? A->cni[h[k].c] : h[k].v == 1 ? B->cni[h[k].c] : h[k].v == 2 ? U : A->cni[h[k].c] ^ 1; } } while (0)
+#define EXPECT(what, cond) do { if (!(cond)) vf_fail("selftest:C13", "reference model: %s", what); } while (0)
+		/* h1, a CNI that is not in the table next to one that is */
+		LOAD(h1);
+		n = model_run(0, 0, evs_ref);           /* strict: A identified once, the unknown CNI only adds a NETWORK_ID, no cache clear */
+		EXPECT("strict h1", n == 3 && evs_ref[0].type == VBI_EVENT_NETWORK && evs_ref[0].rx == 1 && evs_ref[0].net.nuid == (unsigned)A->id && evs_ref[1].type == VBI_EVENT_NETWORK_ID
+			&& evs_ref[2].type == VBI_EVENT_NETWORK_ID && evs_ref[2].rx == 3 && evs_ref[2].net.nuid == (unsigned)A->id && evs_ref[2].net.cni_vps == (int)U && m_nreset == 0);
+		n = model_run(Q_UNKNOWN, 0, evs_ref);   /* the unknown CNI revokes A (blank NETWORK, cache cleared), A comes back once */
+		EXPECT("Q_UNKNOWN h1", m_nreset == 1 && m_reset[0] == 3 && evs_ref[2].type == VBI_EVENT_NETWORK && evs_ref[2].net.nuid == 0 && evs_ref[2].net.cni_8301 == 0
+			&& evs_ref[3].type == VBI_EVENT_NETWORK && evs_ref[3].net.cni_vps == (int)U && evs_ref[3].net.cni_8301 == (int)A->cni[1]);
+		n = model_run(Q_ALL, 0, evs_ref);       /* with the shared counter and all CNIs forgotten: revoked and identified again and again */
+		EXPECT("Q_ALL h1", m_nreset == 2 && m_reset[0] == 3 && m_reset[1] == 7 && n == 2 + 3 + 2 + 3 + 2 && evs_ref[5].rx == 5 && evs_ref[5].type == VBI_EVENT_NETWORK && evs_ref[5].net.nuid == (unsigned)A->id);
+		/* h2, zapping back to a station whose carrier was silent meanwhile */
+		LOAD(h2);
+		n = model_run(0, 0, evs_ref);
+		EXPECT("strict h2", m_nreset == 2 && m_reset[0] == 3 && m_reset[1] == 5 && n == 6 && evs_ref[4].net.nuid == (unsigned)A->id && evs_ref[4].type == VBI_EVENT_NETWORK && evs_ref[2].net.cni_vps == 0);
+		n = model_run(Q_STALE, 0, evs_ref);
+		EXPECT("Q_STALE h2", m_nreset == 1 && n == 4 && evs_ref[2].net.cni_vps == (int)A->cni[0]);
+		/* h3, a single deviating word: announced again (NETWORK_ID), no NETWORK event, no cache clear, in every variant */
+		LOAD(h3);
+		for (k = 0; k < 8; k++) {
+			n = model_run(k, 0, evs_ref);
+			EXPECT("h3", n == 3 && m_nreset == 0 && evs_ref[2].type == VBI_EVENT_NETWORK_ID && evs_ref[2].rx == 4);
+		}
+		/* and the rules on h1 with all deviations: the third identification of A repeats the second with no new input */
+		LOAD(h1);
+		domain = D_EXH; nphase = 0;
+		n_ev = model_run(Q_ALL, 0, evs_ref); evs = evs_ref;
+		eval_only = 1; collecting = 1; n_vlist = 0;
+		rules_R1_R2_R3();
+		eval_only = 0; collecting = 0; evs = evs_lib;
+		EXPECT("rules on Q_ALL h1", n_vlist == 2 && !strcmp(vlist[0].key, "model:C13:R3:network-repeated") && !strcmp(vlist[1].key, "model:C13:R3:network-id-repeated"));
+		n_ev = model_run(0, 0, evs_ref); evs = evs_ref;
+		eval_only = 1; collecting = 1; n_vlist = 0;
+		rules_R1_R2_R3();
+		eval_only = 0; collecting = 0; evs = evs_lib;
+		EXPECT("rules on strict h1", n_vlist == 0);
+		n_rx = n_ev = n_vlist = 0;
+#undef LOAD
+#undef EXPECT
+	}
 	{
 		const struct vbi_cni_entry *e = ref_lookup(CR_8301, 0x4902);
 		if (!e || strcmp(e->name, "ZDF")) vf_fail("selftest:C13", "table lookup of ZDF");
